@@ -207,18 +207,31 @@ def canon_model(model):
             "cls": type(model).__name__, "assertions": len(getattr(model, "assertions", []) or [])}
 
 
+def canon_key(model, key):
+    """canonical name of the parameter a samples column belongs to: the smallest dotted path of its prior"""
+    path = tuple(key.split(".")) if isinstance(key, str) else tuple(map(str, key))
+    if model is None:
+        return ".".join(path)
+    try:
+        prior = model.object_for_path(path)
+        return min(".".join(map(str, p)) for p in model.all_paths_for_prior(prior))
+    except Exception:  # noqa
+        return ".".join(path)
+
+
+def vec_keys(model):
+    """canonical column names in parameter-vector order"""
+    return [min(".".join(map(str, p)) for p in model.all_paths_for_prior(prior)) for prior in model.priors_ordered_by_id]
+
+
 def canon_samples(samples):
     if samples is None:
         return None
     rows = []
     model = samples.model
     for s in samples.sample_list:
-        try:
-            vec = s.parameter_lists_for_model(model) if model is not None else list(s.kwargs.values())
-        except Exception as e:  # noqa
-            vec = ["exc:" + type(e).__name__]
-        rows.append({"v": [hexf(x) if not isinstance(x, str) else x for x in vec],
-                     "ll": hexf(s.log_likelihood), "lp": hexf(s.log_prior), "w": hexf(s.weight)})
+        kv = sorted([canon_key(model, k), hexf(v)] for k, v in s.kwargs.items())
+        rows.append({"kv": kv, "ll": hexf(s.log_likelihood), "lp": hexf(s.log_prior), "w": hexf(s.weight)})
     return rows
 
 
@@ -312,7 +325,7 @@ def inspect_dir(root):
                 for r in rows[1:]:
                     vals = [float(x) for x in r]
                     rec = dict(zip(hdr, vals))
-                    body.append({"v": [hexf(rec[h]) for h in hdr if h not in ("log_likelihood", "log_prior", "log_posterior", "weight")],
+                    body.append({"raw": [[h, hexf(rec[h])] for h in hdr if h not in ("log_likelihood", "log_prior", "log_posterior", "weight")],
                                  "ll": hexf(rec["log_likelihood"]), "lp": hexf(rec["log_prior"]), "w": hexf(rec["weight"])})
                 e["samples"] = {"header": hdr, "rows": body}
             for nm in ("search", "model"):
@@ -365,10 +378,15 @@ def recompute_id(folder, vectors=None):
                "model": canon_model(model), "insts": None}
         if vectors is not None:
             try:
-                out["insts"] = [digest(canon_instance(model.instance_from_vector([float.fromhex(x) for x in v], ignore_prior_limits=True)))
-                                for v in vectors]
+                out["keymap"] = {h: canon_key(model, h) for h, _ in (vectors[0] if vectors else [])}
+                order = vec_keys(model)
+                insts = []
+                for raw in vectors:
+                    byk = {out["keymap"][h]: float.fromhex(x) for h, x in raw}
+                    insts.append(digest(canon_instance(model.instance_from_vector([byk[k] for k in order], ignore_prior_limits=True))))
+                out["insts"] = insts
             except Exception as e:  # noqa
-                out["insts_exc"] = exc_name(e)
+                out["insts_exc"] = exc_name(e) + ": " + str(e)[:100]
         return out
     except Exception as e:  # noqa
         return {"exc": exc_name(e), "msg": str(e)[:200]}
@@ -440,6 +458,10 @@ def run_fit(f, session=None):
         rec["live_id_exc"] = exc_name(e)
     rec["prior_count"] = model.prior_count
     rec["model"] = canon_model(model)
+    try:
+        rec["vec_keys"] = vec_keys(model)
+    except BaseException as e:  # noqa
+        rec["vec_keys_exc"] = exc_name(e)
     if f["search"]["cls"] == "Scripted" and f["type"] != "grid":
         n = model.prior_count
         try:
@@ -474,7 +496,7 @@ def scenario(c, idx):
     res["directory"] = inspect_dir(insp_root)
     for e in res["directory"]:
         if e["metadata"]:
-            vecs = [r["v"] for r in e["samples"]["rows"]] if e.get("samples") else None
+            vecs = [r["raw"] for r in e["samples"]["rows"]] if e.get("samples") else None
             e["recomputed"] = recompute_id(os.path.join(insp_root, e["rel"]), vecs)
     shutil.rmtree(insp_root, ignore_errors=True)
     # route 1: scrape
